@@ -8,7 +8,7 @@ use crate::report::{par_run, Report};
 use crate::rng::Rng;
 use serde_json::json;
 
-pub const RULE: &str = "All 22 indicators (multipliers incl. MIN_POSITIVE, 5e-324, f64::MAX, NaN) x periods {1,2,7,64,512} (+ sampled 1..=512) x stream shapes {strictly increasing, strictly decreasing, alternating, flat, random walk, uniform random, one NaN then non-increasing, +-inf then flat, finite values of magnitude 1e-300..1e300, a feed of recurring bad ticks (crossed bars, non-finite fields, both at once)} x scalar/bar feed: after a warm-up of n+2 inputs the thread-local live-heap counter of the harness's counting GlobalAlloc is read, N further inputs (10^5 quick - 1.1*10^6 for the period-7 random-walk runs - and 10^6 thorough) generated in place (no harness allocation in between) are fed, and it is read again: growth must be <= 256 + 64*sum(periods) bytes (allocation count in steady state reported). bincode::serialized_size is sampled at every step of the first 3n+10 inputs and at 64 checkpoints of the long run: always <= the same bound (constancy after the first input reported). A second phase repeats, on one instance per (indicator, period in {1,7,64,65,200,512}), R cycles of {feed n+5 inputs, reset} / {clone, drop} / {serialize, deserialize, swap}: live heap after the cycles must be within the same bound of live heap after the first cycle (a per-reset, per-clone or per-restore leak grows linearly). Non-trivial: every run (stream far longer than the window); distinct by construction (indicator, period, shape, feed).";
+pub const RULE: &str = "All 22 indicators (multipliers incl. MIN_POSITIVE, 5e-324, f64::MAX, NaN) x periods {1,2,7,64,512} (+ sampled 1..=512) x stream shapes {strictly increasing, strictly decreasing, alternating, flat, random walk, uniform random, one NaN then non-increasing, +-inf then flat, finite values of magnitude 1e-300..1e300, a feed of recurring bad ticks (crossed bars, non-finite fields, both at once), all zeros, halts of doubling length} x scalar/bar feed: after a warm-up of n+2 inputs the thread-local live-heap counter of the harness's counting GlobalAlloc is read, N further inputs (10^5 quick - 1.1*10^6 for the period-7 random-walk runs - and 10^6 thorough) generated in place (no harness allocation in between) are fed, and it is read again: growth must be <= 256 + 64*sum(periods) bytes (allocation count in steady state reported). bincode::serialized_size is sampled at every step of the first 3n+10 inputs and at 64 checkpoints of the long run: always <= the same bound (constancy after the first input reported). A second phase repeats, on one instance per (indicator, period in {1,7,64,65,200,512}), R cycles of {feed n+5 inputs, reset} / {clone, drop} / {serialize, deserialize, swap}: live heap after the cycles must be within the same bound of live heap after the first cycle (a per-reset, per-clone or per-restore leak grows linearly). Non-trivial: every run (stream far longer than the window); distinct by construction (indicator, period, shape, feed).";
 
 #[derive(Clone, Copy, Debug, PartialEq)]
 pub enum Shape {
@@ -28,8 +28,13 @@ pub enum Shape {
     /// both at once, NaN / inf / f64::MAX scalars — all the way through, not just at the start (anything
     /// an indicator might be tempted to remember about bad input)
     BadTicks,
+    /// nothing but exact zeros (a series that has not started trading; also what an all-zero bar is)
+    Zeros,
+    /// halts of ever growing length: the price only changes when the input count is a power of two, so the
+    /// longest run of identical inputs keeps doubling and each one ends
+    Halts,
 }
-pub const SHAPES: [Shape; 10] = [Shape::Increasing, Shape::Decreasing, Shape::Alternating, Shape::Flat, Shape::Walk, Shape::Uniform, Shape::NanThenDecreasing, Shape::InfThenFlat, Shape::WideMagnitude, Shape::BadTicks];
+pub const SHAPES: [Shape; 12] = [Shape::Increasing, Shape::Decreasing, Shape::Alternating, Shape::Flat, Shape::Walk, Shape::Uniform, Shape::NanThenDecreasing, Shape::InfThenFlat, Shape::WideMagnitude, Shape::BadTicks, Shape::Zeros, Shape::Halts];
 
 pub struct ShapeGen {
     shape: Shape,
@@ -75,6 +80,8 @@ impl ShapeGen {
                     v
                 }
             }
+            Shape::Zeros => 0.0,
+            Shape::Halts => 100.0 + (64 - self.i.leading_zeros()) as f64 * 0.25,
             Shape::BadTicks => {
                 let base = 50.0 + ((self.i * 13) % 17) as f64;
                 match self.i % 23 {
@@ -113,6 +120,14 @@ impl ShapeGen {
                     16 => Bar { v: f64::NAN, l: f64::MAX, ..good },
                     _ => good,
                 })
+            }
+            Shape::Zeros => {
+                self.i += 1;
+                In::B(Bar { o: 0.0, h: 0.0, l: 0.0, c: 0.0, v: 0.0 })
+            }
+            Shape::Halts => {
+                let c = self.next_price();
+                In::B(Bar { o: c, h: c, l: c, c, v: 100.0 })
             }
             _ => {
                 let c = self.next_price();
